@@ -601,6 +601,110 @@ def schema_lines(enc: Enc, tab: Table) -> list:
     return lines
 
 
+# ------------------------------------------------------------------------------------------------ translator
+def lstr(x) -> str:
+    """Lean string literal"""
+    out = []
+    for ch in x:
+        o = ord(ch)
+        if ch == '"':
+            out.append('\\"')
+        elif ch == '\\':
+            out.append('\\\\')
+        elif ch == '\n':
+            out.append('\\n')
+        elif ch == '\t':
+            out.append('\\t')
+        elif o < 32 or o == 127:
+            out.append('\\x%02x' % o)
+        else:
+            out.append(ch)
+    return '"' + ''.join(out) + '"'
+
+
+def lopt(x) -> str:
+    return 'none' if x is None else f'(some {lstr(x)})'
+
+
+def lbool(x) -> str:
+    return 'true' if x else 'false'
+
+
+def lean_val(toks, i=0):
+    """driver value tokens -> Lean term of type Val (only none / atom / list / obj occur in defaults)"""
+    t = toks[i]
+    if t == 'n':
+        return '.none', i + 1
+    if t == 'a':
+        return f'(.atom {lstr(_unh(toks[i + 1]))})', i + 2
+    if t in ('l', 'o'):
+        off = 2 if t == 'l' else 3
+        n = int(toks[i + off - 1])
+        items, j = [], i + off
+        for _ in range(n):
+            term, j = lean_val(toks, j)
+            items.append(term)
+        body = '[' + ', '.join(items) + ']'
+        return (f'(.list {body})' if t == 'l' else f'(.obj {toks[i + 1]} {body})'), j
+    if t == 'r':
+        if toks[i + 1] != '0':
+            raise ValueError('raw xml inside a default')
+        return '(.raw [])', i + 2
+    raise ValueError(t)
+
+
+def lean_kind(enc: Enc, tab: Table, p, e) -> str:
+    k = e['kind']
+    if k == 'attr':
+        return f'.attr {lstr(e["xml"])} {lstr(e["conv"])} {lbool(e["optional"])} {lbool(e["volatile"])}'
+    if k == 'attrList':
+        return f'.attrList {lstr(e["xml"])} {lstr(e["conv"])} {lbool(e["optional"])}'
+    if k == 'text':
+        style = {'plain': '.plain', 'enumqname': '.enumQName', 'qname': '.qname', 'date': '.date'}[e['style']]
+        d = p._default_py_value
+        dd = None if (d is None or e['style'] != 'enumqname') else enc.scalar(p, e, d)
+        return f'.text {lopt(e["xml"])} {lstr(e["conv"])} {lbool(e["optional"])} {lbool(e["minlen"])} {style} {lopt(dd)}'
+    if k == 'textList':
+        return f'.textList {lopt(e["xml"])} {lstr(e["conv"])} {lbool(e["optional"])}'
+    if k == 'subTextList':
+        return f'.subTextList {lstr(e["xml"])} {lstr(e["conv"])}'
+    if k == 'sub':
+        d = p._default_py_value
+        dv = 'none' if (d is None or type(d) not in tab.index) else f'(some {lean_val(enc.val(d))[0]})'
+        return (f'.sub {lopt(e["xml"])} {max(e["cls"], 0)} {lbool(e["optional"])} {lbool(e["container"])} {lbool(e["skip_empty"])} '
+                f'{e["dispatch"]} {dv}')
+    if k == 'subList':
+        return f'.subList {lstr(e["xml"])} {max(e["cls"], 0)} {lbool(e["container"])} {e["dispatch"]}'
+    if k == 'raw':
+        return f'.raw {lopt(e["xml"])} {dict(ext=".ext", any=".any", anylist=".anyList")[e["style"]]} {lbool(e["optional"])}'
+    raise ValueError(k)
+
+
+def translate(ctx):
+    tab = table()
+    enc = Enc(tab)
+    out = ['import SdcModel.XmlBinding',
+           '/-! GENERATED by harness/props/c05.py from the running code (runtime introspection of `_props` and every descriptor); '
+           'do not edit. -/',
+           'namespace Sdc.Generated.Schema', 'open Sdc.XmlBinding', '']
+    names = []
+    for ci, ce in enumerate(tab.entries):
+        cls = tab.clist[ci]
+        props = ',\n    '.join(f'⟨{lstr(name)}, {lean_kind(enc, tab, p, e)}⟩' for (name, p), e in zip(tab.props[ci], ce['props']))
+        out.append(f'def c{ci} : ClsE := ⟨{lstr(ce["key"])}, {lbool(hasattr(cls, "NODETYPE"))}, {lopt(ce["nodetype"])}, [\n    {props}]⟩')
+        names.append(f'c{ci}')
+    out.append('')
+    out.append('def classes : List ClsE := [' + ', '.join(names) + ']')
+    out.append('def types : List (Nat × String × Nat) := [\n  ' + ',\n  '.join(f'({r}, {lstr(q)}, {c})' for r, q, c in tab.types) + ']')
+    out.append('def schema : Schema := ⟨classes, types⟩')
+    out.append('end Sdc.Generated.Schema\n')
+    core.write_if_changed(core.GENERATED + '/Schema.lean', '\n'.join(out))
+    ctx.notes['schema'] = {'classes': len(tab.entries), 'members': sum(len(c['props']) for c in tab.entries), 'xsi_type_entries': len(tab.types),
+                           'classes_that_cannot_be_constructed': tab.broken,
+                           'kinds': {k: sum(1 for c in tab.entries for e in c['props'] if e['kind'] == k)
+                                     for k in ('attr', 'attrList', 'text', 'textList', 'subTextList', 'sub', 'subList', 'raw')}}
+
+
 # ------------------------------------------------------------------------------------------------ implementation side
 def qname_for(cls):
     nt = getattr(cls, 'NODETYPE', None)
